@@ -47,6 +47,42 @@ CLAIMED.update({
          'and that the hunk header names minus_file exactly when plus_file is /dev/null. Not decided: path parsing and labels.',
     note=E1_NOTE, design='5/C14'),
 })
+RULE_NOTE = 'Trusts rustc MIR construction + callee resolution, the fact serialisation and the Python rule engines; decides the named structural clauses only (see DESIGN.md).'
+CLAIMED.update({
+ 'C03': dict(technique='MIR rules on the input path: regex group-tree vs unwrapped capture reads (P1), unwrap of numeric parse results (P2), unsigned-subtraction discharge by dominating comparison / guard / hand-proved table (P3), abstract-interpreter reachability of explicit aborts (P4; without grammar assumptions in the thorough tier)',
+    text='Decides four necessary conditions of never-crashes on the functions reachable from the renderer; the whole property (all panics, hangs, allocation) is not statically decidable here and the evidence says so.',
+    note=RULE_NOTE + ' Hand-proved tables (assumptions/c03_*.json) carry one reason per exempted site. Group structure from Python\'s regex parser.', design='5/C03'),
+ 'C05': dict(technique='finite-table extraction from MIR (State variant -> increments / displayed numbers) compared with the specification table; must-call + provenance rules for per-hunk initialisation; abstract evaluation of the line painter over the panel domain',
+    text='Decides the increment/number table for all 16 State variants, that counters are re-seeded from the first/last coordinate pair on every path of the hunk-header emitter, and that increment=false exactly for the Left panel.',
+    note=RULE_NOTE + ' Not decided: side-by-side compensation arithmetic, widths, header text.', design='5/C05'),
+ 'C08': dict(technique='MIR who-may-read rule: every call receiving StateMachine.raw_line-derived data classified as carry/emit, escape-aware/documented, ingest guard, or violation',
+    text='Decides that no decision or parse in the renderer is taken on the raw (possibly coloured) line outside the enumerated escape-aware functions: a necessary condition for coloured and uncoloured input to be treated alike.',
+    note=RULE_NOTE + ' Byte equality of the two runs and moved-line colours are value-level and not decided.', design='5/C08'),
+ 'C09': dict(technique='MIR follows/guarded-by rules on escape constants and string cutters (BALANCED, CUTTERS)',
+    text='Decides that every state-setting escape constant delta emits is followed by a reset on all paths or painted through ansi_term, and that every truncate/pop/grapheme cut in the renderer is guarded so that no escape sequence is split.',
+    note=RULE_NOTE + ' Balance of the input\'s own sequences and correctness of computed cut positions are not decided.', design='5/C09'),
+ 'C12': dict(technique='table agreement over MIR: parser word->attribute table vs printer attribute->word table, positional slot guards, three colour tables, Config field <-> style key, plus hash-order lint on the printer',
+    text='Decides the structural round-trip conditions of the style language (every parsed attribute is printed with a word that parses back; foreground/background slots are positional; colour number/variant/name tables agree; each style option feeds the field of the same name).',
+    note=RULE_NOTE + ' Palette / hex arithmetic not decided.', design='5/C12'),
+ 'C13': dict(technique='MIR ordering (reachability between lookups), iterator-type, guarded-by rules on option processing; phase-order rule on gather_features; who-may-call for raw config accessors; hash-order lint',
+    text='Decides main-section-first / features-reversed / custom-before-builtin lookup order, command-line-wins for all 108 option writes, the four-phase feature gathering order, --no-gitconfig gating, env overrides before file config, and determinism of option processing.',
+    note=RULE_NOTE + ' The value-level lattice of placements is not decided.', design='5/C13'),
+ 'C15': dict(technique='taint rule on ansi_term::Style constructions (syntect provenance only into `foreground`, guarded by is_syntax_highlighted), who-may-call for content-sniffing lookups, must-call for highlighter reset, E1 typestate STALE-SYNTAX',
+    text='Decides that syntax colours only reach the foreground of styles that ask for syntax, that the language is never sniffed from content for a file name, and that the language is re-selected after every file-name change before a hunk is painted.',
+    note=E1_NOTE, design='5/C15'),
+ 'C16': dict(technique='table agreement: the five grep regex variants assembled from MIR literals, group trees from the regex parser, vs the reader\'s (index, LineType) table, the separator printer and the try-order array',
+    text='Decides that groups 1 and 8 participate in every match, 2/4/6 are exclusive alternatives whose leading separator matches the LineType they are mapped to and printed with, 3/5/7 nest in them, and the plain-text variants are tried most specific first.',
+    note=RULE_NOTE + ' Ambiguous plain-text parses and rg --json decoding not decided.', design='5/C16'),
+ 'C17': dict(technique='abstract evaluation of the colour-choice function over its finite decision domain (memoised predicates for memo lookups and colour equality), MIR edge rule for the next-colour function, must-call/provenance rules for the memo, regex group participation',
+    text='Decides the blame colour table against the specification for every feasible case, the alternative-colour rule, that the memo is updated for every non-repeat, and that the five unwrapped regex groups are mandatory.',
+    note=RULE_NOTE + ' Timestamp parsing and padding not decided.', design='5/C17'),
+ 'C18': dict(technique='MIR unreachable-from, error-discipline, BrokenPipe mapping (function summaries + edge-dominated arms), who-may-call process::exit, provenance of exit status, pager selection table',
+    text='Decides that the renderer never prints to stdout directly or drops/unwraps output errors, that every io::Error leaving run_app has passed a BrokenPipe->Ok mapping and BrokenPipe arms are silent, exit discipline, status pass-through and the pager selection order.',
+    note=RULE_NOTE + ' Delivery of bytes to the pager and signals not decided.', design='5/C18'),
+ 'C19': dict(technique='who-may-construct for OSC literals + template check, Element->is_escape table, sibling-arm provenance agreement at hyperlink call sites, provenance of the {line} substitution',
+    text='Decides that links are opened and closed by one template, that OSC elements are never measured, that enabling hyperlinks only wraps the value that would be printed anyway, and that the linked line number is the formatter argument.',
+    note=RULE_NOTE + ' Absolute-path and URL template correctness not decided.', design='5/C19'),
+})
 NOT_APPLICABLE = {
  'C06': 'Soundness/minimality of a dynamic-programming token alignment and a distance threshold over all string pairs: arithmetic on runtime values; no structural necessary condition beyond what the 35 unit tests already pin (DESIGN.md section 6).',
  'C07': 'Panel widths, wrap points and truncation are arithmetic over display widths of runtime strings; no pairing/ownership/table structure carries the property (DESIGN.md section 6).',
